@@ -465,7 +465,7 @@ TIE_FILES = {   # tie file -> functions of pyerrors/obs.py it needs regenerated
     "Tie_gap.v": ["_determine_gap", "gamma_method_w_max"],
     "Tie_kwarg.v": ["_parse_kwarg"],
     "Tie_scalef.v": ["_compute_scalefactor_missing_rep"],
-    "Tie_jack.v": ["export_jackknife", "import_jackknife_samples"],
+    "Tie_jack.v": ["export_jackknife", "import_jackknife_samples", "export_bootstrap_core"],
     "Tie_drho.v": ["compute_drho_radicand"],
     "Tie_covdot.v": ["_reduce_deltas", "covariance_calc_gamma"],      # imports Tie_reduce: list that file first
     "Tie_sortvec.v": ["sort_vectors_branch"],
